@@ -26,7 +26,7 @@ theorem find_flight {l : List DFlight} {i id : Nat} {f : DFlight}
   simp only [Bool.and_eq_true, beq_iff_eq] at this
   exact this.2
 
-theorem DRL.step_inv (W N : Nat) (s : DRL) (a : DAct) (h : s.Inv) : (s.step W N a).1.Inv := by
+theorem DRL.step_inv (W : Nat → Nat) (N : Nat) (s : DRL) (a : DAct) (h : s.Inv) : (s.step W N a).1.Inv := by
   unfold DRL.Inv at *
   intro x
   have hx := h x
@@ -56,11 +56,11 @@ theorem DRL.step_inv (W N : Nat) (s : DRL) (a : DAct) (h : s.Inv) : (s.step W N 
       · simp only [DRL.F, DRL.I, DRL.setInst, List.count_append, List.count_cons, List.map_cons] at hx ⊢
         by_cases e : id = x <;> simp [e] at hc ⊢ <;> omega
 
-theorem DRL.run_inv (W N : Nat) : ∀ (acts : List DAct) (s : DRL), s.Inv → (DRL.run W N s acts).Inv
+theorem DRL.run_inv (W : Nat → Nat) (N : Nat) : ∀ (acts : List DAct) (s : DRL), s.Inv → (DRL.run W N s acts).Inv
   | [], _, h => h
   | a :: as, s, h => DRL.run_inv W N as _ (DRL.step_inv W N s a h)
 
-theorem DRL.step_recv (W N : Nat) (s : DRL) (a : DAct) :
+theorem DRL.step_recv (W : Nat → Nat) (N : Nat) (s : DRL) (a : DAct) :
     (s.step W N a).1.recv = dReqIds [a] ++ s.recv := by
   cases a with
   | arr i id t => simp only [DRL.step]; split <;> simp [dReqIds, DRL.setInst]
@@ -75,7 +75,7 @@ theorem DRL.step_recv (W N : Nat) (s : DRL) (a : DAct) :
 theorem dReqIds_cons (a : DAct) (as : List DAct) : dReqIds (a :: as) = dReqIds as ++ dReqIds [a] := by
   cases a <;> simp [dReqIds]
 
-theorem DRL.run_recv (W N : Nat) : ∀ (acts : List DAct) (s : DRL),
+theorem DRL.run_recv (W : Nat → Nat) (N : Nat) : ∀ (acts : List DAct) (s : DRL),
     (DRL.run W N s acts).recv = dReqIds acts ++ s.recv
   | [], _ => by simp [DRL.run, dReqIds]
   | a :: as, s => by
@@ -96,13 +96,13 @@ theorem DRL.count_cons (s : DRL) (w c w' : Nat) :
   · have hb : (w == w') = false := by simp [h]
     simp [hb, h]
 
-theorem DRL.serve_seq (W N : Nat) (s : DRL) (r : Nat × Nat × Nat × Nat × Nat) (h : s.Seq N) :
+theorem DRL.serve_seq (W : Nat → Nat) (N : Nat) (s : DRL) (r : Nat × Nat × Nat × Nat × Nat) (h : s.Seq N) :
     (s.serve W N r).Seq N := by
   obtain ⟨i, id, t, t1, t2⟩ := r
   obtain ⟨hf, hc⟩ := h
   simp only [DRL.serve]
   -- first segment
-  by_cases hl : N ≤ ((s.inst i).roll (t / W)).known
+  by_cases hl : N ≤ ((s.inst i).roll (W t)).known
   · -- local rejection: nothing in flight, the two `res` find nothing
     have e1 : (s.step W N (.arr i id t)).1.flights = [] := by simp [DRL.step, hl, DRL.setInst, hf]
     have e1s : ∀ w, (s.step W N (.arr i id t)).1.count w = s.count w := by
@@ -115,13 +115,13 @@ theorem DRL.serve_seq (W N : Nat) (s : DRL) (r : Nat × Nat × Nat × Nat × Nat
     rw [e3]
     exact ⟨e1, fun w => by rw [e1w, e1s]; exact hc w⟩
   · -- read issued
-    have e1 : (s.step W N (.arr i id t)).1.flights = [⟨i, id, t, t / W, none⟩] := by
+    have e1 : (s.step W N (.arr i id t)).1.flights = [⟨i, id, t, W t, none⟩] := by
       simp [DRL.step, hl, DRL.setInst, hf]
     have e1s : ∀ w, (s.step W N (.arr i id t)).1.count w = s.count w := by
       intro w; simp [DRL.step, hl, DRL.setInst, DRL.count]
     have e1w : (s.step W N (.arr i id t)).1.fwdWin = s.fwdWin := by simp [DRL.step, hl, DRL.setInst]
     generalize (s.step W N (.arr i id t)).1 = s1 at e1 e1s e1w
-    by_cases hg : N ≤ s1.count (t / W)
+    by_cases hg : N ≤ s1.count (W t)
     · -- global rejection
       have e2f : (s1.step W N (.res i id t1)).1.flights = [] := by
         simp [DRL.step, e1, hg, DRL.setInst]
@@ -135,7 +135,7 @@ theorem DRL.serve_seq (W N : Nat) (s : DRL) (r : Nat × Nat × Nat × Nat × Nat
       rw [e3]
       exact ⟨e2f, fun w => by rw [e2w, e2s, e1w, e1s]; exact hc w⟩
     · -- write issued, then forwarded
-      have e2f : (s1.step W N (.res i id t1)).1.flights = [⟨i, id, t, t / W, some (s1.count (t / W) + 1)⟩] := by
+      have e2f : (s1.step W N (.res i id t1)).1.flights = [⟨i, id, t, W t, some (s1.count (W t) + 1)⟩] := by
         simp [DRL.step, e1, hg, DRL.setInst]
       have e2s : ∀ w, (s1.step W N (.res i id t1)).1.count w = s1.count w := by
         have hst : (s1.step W N (.res i id t1)).1.store = s1.store := by simp [DRL.step, e1, hg, DRL.setInst]
@@ -145,33 +145,86 @@ theorem DRL.serve_seq (W N : Nat) (s : DRL) (r : Nat × Nat × Nat × Nat × Nat
       generalize (s1.step W N (.res i id t1)).1 = s2 at e2f e2s e2w
       have e3f : (s2.step W N (.res i id t2)).1.flights = [] := by
         simp [DRL.step, e2f, DRL.setInst]
-      have e3w : (s2.step W N (.res i id t2)).1.fwdWin = (t / W) :: s2.fwdWin := by
+      have e3w : (s2.step W N (.res i id t2)).1.fwdWin = (W t) :: s2.fwdWin := by
         simp [DRL.step, e2f, DRL.setInst]
       have e3s : ∀ w, (s2.step W N (.res i id t2)).1.count w =
-          if t / W = w then s1.count (t / W) + 1 else s2.count w := by
-        have hst : (s2.step W N (.res i id t2)).1.store = (t / W, s1.count (t / W) + 1) :: s2.store := by
+          if W t = w then s1.count (W t) + 1 else s2.count w := by
+        have hst : (s2.step W N (.res i id t2)).1.store = (W t, s1.count (W t) + 1) :: s2.store := by
           simp [DRL.step, e2f, DRL.setInst]
         intro w
-        have := DRL.count_cons s2 (t / W) (s1.count (t / W) + 1) w
+        have := DRL.count_cons s2 (W t) (s1.count (W t) + 1) w
         simp only [DRL.count] at this ⊢
         rw [hst]; exact this
       refine ⟨e3f, fun w => ?_⟩
       rw [e3w, e3s, List.count_cons]
       have := hc w
       have h1 := e1s w; have h2 := e2s w
-      by_cases hw : t / W = w
+      by_cases hw : W t = w
       · subst hw
         simp only [beq_self_eq_true, if_true]
         rw [e2w, e1w]
         omega
       · simp only [hw, if_false]
-        have : (t / W == w) = false := by simp [hw]
+        have : (W t == w) = false := by simp [hw]
         simp only [this, Bool.false_eq_true, if_false, Nat.add_zero]
         rw [e2w, e1w, h2, h1]; exact hc w
 
-theorem DRL.serveAll_seq (W N : Nat) : ∀ (rs : List (Nat × Nat × Nat × Nat × Nat)) (s : DRL), s.Seq N →
+theorem DRL.serveAll_seq (W : Nat → Nat) (N : Nat) : ∀ (rs : List (Nat × Nat × Nat × Nat × Nat)) (s : DRL), s.Seq N →
     (DRL.serveAll W N s rs).Seq N
   | [], _, h => h
   | r :: rs, s, h => DRL.serveAll_seq W N rs _ (DRL.serve_seq W N s r h)
+
+/-- the ghost lists stay aligned: `fwdWin` is `fwdArr` mapped through `wid`, provided every flight
+    records `win = wid arr` -/
+def DRL.Ghost (W : Nat → Nat) (s : DRL) : Prop :=
+  s.fwdWin = s.fwdArr.map W ∧ ∀ f ∈ s.flights, f.win = W f.arr
+
+theorem DRL.step_ghost (W : Nat → Nat) (N : Nat) (s : DRL) (a : DAct) (h : s.Ghost W) : (s.step W N a).1.Ghost W := by
+  obtain ⟨h1, h2⟩ := h
+  cases a with
+  | arr i id t =>
+    simp only [DRL.step]
+    split
+    · exact ⟨by simpa [DRL.setInst] using h1, by simpa [DRL.setInst] using h2⟩
+    · refine ⟨by simpa [DRL.setInst] using h1, ?_⟩
+      intro f hf
+      simp only [DRL.setInst, List.mem_cons] at hf
+      rcases hf with rfl | hf
+      · rfl
+      · exact h2 f hf
+  | res i id t =>
+    simp only [DRL.step]
+    split
+    · exact ⟨h1, h2⟩
+    · rename_i f hfind
+      obtain ⟨hmem, _⟩ := find_flight hfind
+      have hsub : ∀ g ∈ s.flights.erase f, g.win = W g.arr := fun g hg => h2 g (List.mem_of_mem_erase hg)
+      split
+      · split
+        · exact ⟨by simpa [DRL.setInst] using h1, by simpa [DRL.setInst] using hsub⟩
+        · refine ⟨by simpa [DRL.setInst] using h1, ?_⟩
+          intro g hg
+          simp only [DRL.setInst, List.mem_cons] at hg
+          rcases hg with rfl | hg
+          · exact h2 f hmem
+          · exact hsub g hg
+      · refine ⟨?_, by simpa [DRL.setInst] using hsub⟩
+        simp only [DRL.setInst, List.map_cons, h1, h2 f hmem]
+
+theorem DRL.serve_ghost (W : Nat → Nat) (N : Nat) (s : DRL) (r : Nat × Nat × Nat × Nat × Nat) (h : s.Ghost W) :
+    (s.serve W N r).Ghost W :=
+  DRL.step_ghost W N _ _ (DRL.step_ghost W N _ _ (DRL.step_ghost W N _ _ h))
+
+theorem DRL.serveAll_ghost (W : Nat → Nat) (N : Nat) : ∀ (rs : List (Nat × Nat × Nat × Nat × Nat)) (s : DRL),
+    s.Ghost W → (DRL.serveAll W N s rs).Ghost W
+  | [], _, h => h
+  | r :: rs, s, h => DRL.serveAll_ghost W N rs _ (DRL.serve_ghost W N s r h)
+
+theorem cntWin_eq_count (W k : Nat) (ts : List Nat) : cntWin W k ts = (ts.map (aligned W)).count k := by
+  induction ts with
+  | nil => rfl
+  | cons t ts ih =>
+    simp only [cntWin, List.filter_cons, List.map_cons, List.count_cons, aligned] at ih ⊢
+    by_cases h : t / W = k <;> simp [h, ih]
 
 end HappyModel.C10
